@@ -663,7 +663,7 @@ func builtin_ord(self, obj py.Object) (py.Object, error) {
 	case py.String:
 		size = len(x)
 		rune, runeSize := utf8.DecodeRuneInString(string(x))
-		if size == runeSize && rune != utf8.RuneError {
+		if size == runeSize && (rune != utf8.RuneError || runeSize == 3) {
 			return py.Int(rune), nil
 		}
 	//case py.ByteArray:
